@@ -120,6 +120,12 @@ func VerifDoContext(n int, par int, failMask int, ctxMode int) {
 			vAssert(g.calls[i] == 1, "docontext/exactly-once-when-nothing-fails")
 		}
 	}
+	if err == nil {
+		// a nil result claims the whole job was done
+		for i := range g.calls {
+			vAssert(g.calls[i] == 1, "docontext/nil-error-only-if-every-index-ran")
+		}
+	}
 	if err != nil {
 		ok := false
 		for i := range errs {
